@@ -320,14 +320,17 @@ def gen(rng: random.Random, k: int, tier: str) -> dict:
                 and any(len(c["samples"]) >= 2 for c in ws["channels"]):
             break
     _ensure_features(ws, rng)
-    cfg = {"pairs": rng.choice([0, 4, 10])}
+    cfg = {"pairs": rng.choice([0, 6, 16])}
     ops = [{"op": "base", "ws": ws}]
     faults = enumerate_faults(ws, rng)
     controls = enumerate_controls(ws, rng)
     pairs = []
     for _ in range(cfg["pairs"]):
         a, b = rng.sample(faults, 2)
-        if a["cls"] == b["cls"] or a["cls"] == "poi_undefined" or b["cls"] == "poi_undefined":
+        if a["cls"] == "poi_undefined" or b["cls"] == "poi_undefined" or a is b:
+            continue
+        # two renames can compose into a consistent spec (a swap): same-class pairs only for non-rename classes
+        if a["cls"] == b["cls"] and a["cls"] in ("dup_channel", "dup_sample"):
             continue
         # combine only if the two edits touch different lists/leaves (keeps indices valid)
         pa = {tuple(e[1][:4]) for e in a["edits"]}
